@@ -316,7 +316,9 @@ JudgeDecapQ(e, rx, q, crc) ==
               \* a delimited start/complete packet whose label is known - also when it is dropped for an unknown
               \* mandatory extension - is "the nearest preceding start or complete packet" from now on
               ELSE IF w.ok \/ w.why = "unknown_mandatory" THEN {NoLabel, [k |-> w.lt, b |-> w.label]}
-              ELSE rx.adm \cup {NoLabel, [k |-> w.lt, b |-> SubSeq(p, IF kind = "first" THEN 8 ELSE 5, (IF kind = "first" THEN 7 ELSE 4) + LtLen(w.lt))]})
+              \* any other delimited start packet whose label field lies inside the packet (e.g. an extension chain
+              \* cut short by the GSE length): it is the nearest preceding start packet all the same
+              ELSE {NoLabel, [k |-> w.lt, b |-> SubSeq(p, IF kind = "first" THEN 8 ELSE 5, (IF kind = "first" THEN 7 ELSE 4) + LtLen(w.lt))]})
         \* well-formed intermediate / end packets carry no label: they leave the label memory alone (C04 "fragment
         \* traffic", C07 "packets of unknown fragment ids"), whether they are accepted or rejected
         ELSE IF wf /\ kind \in {"inter", "end"} THEN rx.adm
